@@ -176,22 +176,33 @@ def oracle(ck, tier, deep):
             ck.violation(dict(site="TransformPair", clause="grid"), dict(profile=k), "TransformPair grid is not linspace(0, 1, n)")
     # ---- SampleImage
     names = ["Dribinski", "Gaussian", "Gerber", "O2", "Ominus"]
-    sizes = [61, 100] if not deep else [61, 100, 201, 361]
+    sizes = [61, 100, 33] if not deep else [61, 100, 201, 361, 25, 33, 41]
+    lattice = np.exp(np.log(1e-3) + (np.arange(12) + rng.uniform()) / 12 * (np.log(5e-2) - np.log(1e-3)))   # between the documented values too
     for name in names:
-        for n in sizes:
+      for n in sizes:
+        for rep_i in range(1 if name in ("Gaussian", "O2") else 3):
             kw = {}
-            if rng.random() < 0.5:
-                kw["sigma"] = float(rng.uniform(1.5, 4))
+            if rng.random() < 0.5 or rep_i:
+                kw["sigma"] = float(rng.uniform(1.5, max(4.0, n / 12)))        # up to peaks that are wide compared with the image
             if name == "Ominus":
                 kw["temperature"] = float(rng.choice([100, 200, 600]))
-            tol = float(rng.choice([4.8e-3, 1e-3, 1.4e-2]))
+            tol = float([rng.choice([4.8e-3, 1e-3, 1.4e-2]), rng.choice(lattice), np.exp(rng.uniform(np.log(1e-3), np.log(5e-2)))][rep_i])
             ck.count(("S.sample", name, n % 2, "sigma" in kw), suite="S.sample-images")
             rep = dict(name=name, n=n, tol=tol, **kw)
             try:
                 s = quiet(analytical.SampleImage, n, name=name, **kw)
-                if rng.random() < 0.5:
+                if rng.random() < 0.5 and rep_i == 0:
                     _ = s.abel                       # a first transform with the default tolerance must not fix later ones
                     tol = 1e-5                       # far tighter than the default 4.8e-3 the first transform used
+                if rep_i == 2 and n == sizes[0]:
+                    # the tolerance at which this image's transform is worst relative to tol, located on a dense lattice with a much
+                    # finer approximation as the yardstick (the verdict below is by quadrature at that tolerance and pixel)
+                    fine0 = quiet(s.transform, 1e-7)
+                    dense = np.exp(np.log(1e-3) + (np.arange(60) + rng.uniform()) / 60 * (np.log(5e-2) - np.log(1e-3)))
+                    ratios = [np.abs(quiet(s.transform, float(t)) - fine0).max() / t for t in dense]
+                    tol = float(dense[int(np.argmax(ratios))])
+                    rep["tol"] = tol
+                    ck.count(("S.sample-tol-scan", name), suite="S.sample-images")
                 ab = quiet(s.transform, tol)
             except Exception as e:
                 ck.violation(dict(site="SampleImage", clause="exception", name=name), rep, f"{type(e).__name__}: {e}")
@@ -218,6 +229,14 @@ def oracle(ck, tier, deep):
                 return tot
             rr = s.r
             test_px = [(int(rng.integers(0, n)), int(rng.integers(0, n))) for _ in range(4 if not deep else 12)]
+            exact = name in ("Gaussian", "O2")
+            c0 = n // 2
+            if exact:       # where peaks overlap the origin, and along the axes
+                test_px = [(c0, c0), (c0, min(n - 1, c0 + 2)), (max(0, c0 - 3), c0), (c0 - c0 // 3, c0 + c0 // 4)] + test_px
+            else:           # the pixel where this tolerance matters most, located with a much finer approximation; judged by quadrature
+                fine = quiet(s.transform, 1e-7)
+                test_px = [tuple(int(v) for v in np.unravel_index(np.argmax(np.abs(ab - fine)), ab.shape))] + test_px[:2 if not deep else 6]
+            amp = float(np.abs(ab).max())
             peaks_amp = sum(abs(A if not callable(A) else 1.0) * np.abs(cn).sum() for A, r0, w, cn in s._peaks)
             for (i, j) in test_px:
                 y, x = float(rr[i]), abs(float(rr[j]))
@@ -231,9 +250,9 @@ def oracle(ck, tier, deep):
                     radii = sorted({rb for A_, r0, w, cn in s._peaks for rb in (r0 * sc - 2 * w, r0 * sc, r0 * sc + 2 * w) if rb > 0})
                     brk = sorted({float(np.sqrt(rb * rb - y * y - x * x)) for rb in radii if rb * rb > y * y + x * x}) or None
                 want = los(lambda q: float(F(np.array(y), np.array(q))), x, s.r_max * 1.5 + 20, pts=brk)
-                exact = name in ("Gaussian", "O2")
-                chord = 2 * np.sqrt(max((s.r_max * 1.5) ** 2 - x * x, 1.0))
-                bound = 1e-8 * max(1.0, abs(want)) * max(1.0, (n / 100.0) ** 2) if exact else 1.05 * tol * peaks_amp * chord
+                # SampleImage.transform: "tol: relative tolerance of the approximation (max. deviation divided by max. amplitude) …;
+                # the resulting Abel transform is somewhat more accurate" — so within tol of the amplitude of the transform
+                bound = 1e-8 * max(1.0, abs(want)) * max(1.0, (n / 100.0) ** 2) if exact else 1.01 * tol * amp + 1e-8 * max(1.0, abs(want))
                 if abs(ab[i, j] - want) > bound:
                     ck.violation(dict(site="SampleImage", clause="abel-pair", name=name), dict(rep, pixel=[i, j], abel=float(ab[i, j]), quadrature=want),
                                  f"{name} n={n}: abel[{i},{j}] = {ab[i, j]:.10g}, projection of func = {want:.10g} (allowed {bound:.3g})")
